@@ -205,7 +205,8 @@ func ExecSched(sc sim.Script) *sim.Outcome {
 	for _, sig := range raceLog.New("github.com/0chain/common") {
 		w.fail("race", "race:"+sig, "data race reported by the race detector: %s", sig)
 	}
-	if w.v != nil {
+	if w.v != nil || sched.RaceEnabled {
+		// the -race build decides only the race / panic / deadlock clauses
 		return finishSched(w, res)
 	}
 	var all []porcupine.Operation
